@@ -90,3 +90,31 @@ Proof.
   destruct ((nr =? -1) && (nc =? -1)); [reflexivity|].
   destruct (nr =? -1); [|destruct (nc =? -1)]; rewrite Bool.negb_involutive; reflexivity.
 Qed.
+
+(* the max_bits every constructed result carries is the one the source passes to Matrix(...) *)
+Theorem gen_max_bits a b ws s :
+  maxb (mtranspose a) = transpose_maxbits_gen (bits a) (maxb a) /\
+  maxb (mreversed a) = reversed_maxbits_gen (bits a) (maxb a) /\
+  maxb (mcopy a) = copy_maxbits_gen (bits a) (maxb a) /\
+  maxb (madd a b) = add_maxbits_gen (bits a) (maxb a) /\
+  maxb (msub a b) = sub_maxbits_gen (bits a) (maxb a) /\
+  maxb (mmul a b) = mul_maxbits_gen (bits a) (maxb a) /\
+  maxb (mscal a ws s) = mul_maxbits_gen (bits a) (maxb a) /\
+  maxb (mmatmul a b) = matmul_maxbits_gen (bits a) (maxb a).
+Proof. repeat split; reflexivity. Qed.
+
+Theorem gen_max_bits_reshape a nr nc o res :
+  mreshape a nr nc o = Some res -> maxb res = reshape_maxbits_gen (bits a) (maxb a).
+Proof.
+  unfold mreshape. destruct (resolve_shape _ nr nc) as [[r' c']|]; [|discriminate].
+  intros H. inversion H. reflexivity.
+Qed.
+
+Theorem gen_max_bits_getitem a kr kc res :
+  mgetitem a kr kc = Some res -> maxb res = getitem_maxbits_gen (bits a) (maxb a).
+Proof.
+  unfold mgetitem. destruct (key_get _ kr) as [[rs re]|]; [|discriminate].
+  destruct (key_get _ kc) as [[cs ce]|]; [|discriminate].
+  destruct ((re - rs <=? 0) || (ce - cs <=? 0)); [discriminate|].
+  destruct ((re - rs =? 1) && (ce - cs =? 1)); intros H; inversion H; reflexivity.
+Qed.
